@@ -153,24 +153,27 @@ Proof.
   destruct (addr_eqb_spec b a) as [->|Hb]; [exact Hn|]. eapply NSnode_mono; [exact Hm|apply Hf; exact Hb|apply Hns].
 Qed.
 
-(* ---- creation times: with a constant clock no request ever expires ---- *)
-Definition CT (t : table) (now : N) : Prop := forall a e, In e (n_resp (get t a)) -> snd e = now.
+(* ---- creation times: as long as every outstanding request is younger than the expiry time, no
+        request ever expires (a constant clock is the special case) ---- *)
+Definition young (now c : N) : Prop := now - c < expiry_secs.
+Definition CT (t : table) (now : N) : Prop := forall a e, In e (n_resp (get t a)) -> young now (snd e).
 
-Lemma expiry_positive : (expiry_secs <=? 0) = false.
-Proof. reflexivity. Qed.
+Lemma young_now now : young now now.
+Proof. unfold young. rewrite N.sub_diag. reflexivity. Qed.
 
-Lemma upd_loop_noexp fuel : forall i v rty now, (forall e, In e (n_resp v) -> snd e = now) ->
+Lemma upd_loop_noexp fuel : forall i v rty now, (forall e, In e (n_resp v) -> young now (snd e)) ->
   upd_loop fuel i v rty now = (v, false) \/ upd_loop fuel i v rty now = (pop_resp v, true).
 Proof.
   induction fuel as [|f IH]; intros i v rty now Hct; cbn [upd_loop]; [left; reflexivity|].
   destruct (n_resp v) as [|[ty c] rest] eqn:E; [left; reflexivity|].
   destruct (i <=? info_cnt ty); [|left; reflexivity].
   destruct (info_at ty i =? rty); [right; reflexivity|].
-  assert (c = now) by (apply (Hct (ty, c)); try rewrite E; left; reflexivity). subst c.
-  rewrite N.sub_diag, expiry_positive. apply IH. rewrite E. exact Hct.
+  assert (Hy : young now c) by (apply (Hct (ty, c)); try rewrite E; left; reflexivity).
+  assert (Hx : (expiry_secs <=? now - c) = false) by (apply N.leb_gt; exact Hy).
+  rewrite Hx. apply IH. rewrite E. exact Hct.
 Qed.
 
-Lemma CT_store t a v now : CT t now -> (forall e, In e (n_resp v) -> snd e = now) -> CT (store t a v) now.
+Lemma CT_store t a v now : CT t now -> (forall e, In e (n_resp v) -> young now (snd e)) -> CT (store t a v) now.
 Proof.
   intros Hc Hv b e. destruct (addr_eqb_spec a b) as [->|Hn].
   - rewrite get_store_same. apply Hv.
@@ -180,7 +183,7 @@ Qed.
 Lemma CT_same t t' now : (forall b, n_resp (get t' b) = n_resp (get t b)) -> CT t now -> CT t' now.
 Proof. intros H Hc b e. rewrite H. apply Hc. Qed.
 
-Definition RO (now : N) (v : node) : Prop := forall e, In e (n_resp v) -> snd e = now.
+Definition RO (now : N) (v : node) : Prop := forall e, In e (n_resp v) -> young now (snd e).
 Lemma CT_RO t now : CT t now <-> forall a, RO now (get t a).
 Proof. unfold CT, RO. split; intros H a; apply H. Qed.
 
@@ -188,7 +191,7 @@ Lemma RO_new now : RO now new_node. Proof. intros e []. Qed.
 Lemma RO_add v ty now : RO now v -> RO now (add_response v ty now).
 Proof.
   intros H. unfold add_response. destruct (0 <? resp_size ty); [|exact H].
-  intros e Hin. cbn [with_flow n_resp] in Hin. apply in_app_or in Hin as [Hin|[<-|[]]]; [apply H; exact Hin|reflexivity].
+  intros e Hin. cbn [with_flow n_resp] in Hin. apply in_app_or in Hin as [Hin|[<-|[]]]; [apply H; exact Hin|apply young_now].
 Qed.
 Lemma RO_pop v now : RO now v -> RO now (pop_resp v).
 Proof.
@@ -370,6 +373,64 @@ Proof.
   specialize (IH t1 s1 now Hr Hns1 Hct1). destruct (tab_run t1 s1 now r) as [[[[t2 s2] n2] g2] o2]. exact IH.
 Qed.
 
+(* ---- histories with a moving clock in which no request reaches the expiry age ---- *)
+Definition all_youngb (t : table) (n : N) : bool :=
+  forallb (fun kv : addr * node => forallb (fun e : N * N => n - snd e <? expiry_secs) (n_resp (snd kv))) t.
+
+Lemma lookup_in t a v : lookup t a = Some v -> exists k, In (k, v) t.
+Proof.
+  induction t as [|[k w] r IH]; cbn [lookup]; [discriminate|].
+  destruct (addr_eqb k a).
+  - intros E. injection E as <-. exists k. left. reflexivity.
+  - intros E. destruct (IH E) as [k' Hk]. exists k'. right. exact Hk.
+Qed.
+
+Lemma all_youngb_CT t n : all_youngb t n = true -> CT t n.
+Proof.
+  intros H a e Hin. unfold get in Hin. destruct (lookup t a) as [v|] eqn:E; [|destruct Hin].
+  destruct (lookup_in t a v E) as [k Hk]. unfold all_youngb in H. rewrite forallb_forall in H.
+  specialize (H (k, v) Hk). cbn [snd] in H. rewrite forallb_forall in H. specialize (H e Hin).
+  apply N.ltb_lt in H. exact H.
+Qed.
+
+(* at every clock event all outstanding requests are still younger than the expiry time at the new time *)
+Fixpoint young_run (t : table) (so : bool) (now : N) (es : list fev) : bool :=
+  match es with
+  | [] => true
+  | e :: r => (match e with FTime n => all_youngb t n | _ => true end) &&
+              (let '(t1, s1, n1, _, _) := tab_step t so now e in young_run t1 s1 n1 r)
+  end.
+
+Lemma tab_step_ns_gen t so now e : (forall n, e = FTime n -> CT t n) -> NS t -> CT t now ->
+  let '(t1, _, now1, _, _) := tab_step t so now e in NS t1 /\ CT t1 now1.
+Proof.
+  intros Hf Hns Hct. destruct (no_clock e) eqn:E.
+  - pose proof (tab_step_ns t so now e E Hns Hct) as H.
+    destruct (tab_step t so now e) as [[[[t1 s1] n1] g1] o1]. destruct H as (A & B & ->). split; assumption.
+  - destruct e as [a3 ty data|a rty last|n| |c|b|]; try discriminate. cbn [tab_step]. split; [exact Hns|apply Hf; reflexivity].
+Qed.
+
+Lemma tab_run_ns_young es : forall t so now, young_run t so now es = true -> NS t -> CT t now ->
+  let '(t1, _, _, _, _) := tab_run t so now es in NS t1.
+Proof.
+  induction es as [|e r IH]; intros t so now Hy Hns Hct; cbn [tab_run]; [exact Hns|].
+  cbn [young_run] in Hy. apply andb_true_iff in Hy as [He Hr].
+  assert (Hf : forall n, e = FTime n -> CT t n).
+  { intros n ->. apply all_youngb_CT. exact He. }
+  pose proof (tab_step_ns_gen t so now e Hf Hns Hct) as H1.
+  destruct (tab_step t so now e) as [[[[t1 s1] n1] g1] o1]. destruct H1 as (Hns1 & Hct1).
+  specialize (IH t1 s1 n1 Hr Hns1 Hct1). destruct (tab_run t1 s1 n1 r) as [[[[t2 s2] n2] g2] o2]. exact IH.
+Qed.
+
+(* a history without clock events is one without expiry *)
+Lemma no_clock_young es : forall t so now, forallb no_clock es = true -> young_run t so now es = true.
+Proof.
+  induction es as [|e r IH]; intros t so now H; cbn [young_run]; [reflexivity|].
+  cbn [forallb] in H. apply andb_true_iff in H as [He Hr].
+  destruct (tab_step t so now e) as [[[[t1 s1] n1] g1] o1]. rewrite (IH t1 s1 n1 Hr).
+  destruct e; try discriminate; reflexivity.
+Qed.
+
 Lemma NS_nil : NS [].
 Proof. intros a Hh. unfold get in Hh; cbn in Hh. congruence. Qed.
 
@@ -380,6 +441,17 @@ Theorem no_strand_const_clock es so now0 : forallb no_clock es = true ->
   forall a, n_held (get t a) <> [] -> unblocked t a -> head_blocked_by_budget t a.
 Proof.
   intros Hnc. pose proof (tab_run_ns es [] so now0 Hnc NS_nil (CT_nil now0)) as H.
+  destruct (tab_run [] so now0 es) as [[[[t s] n] g] o]. intros a Hh Hu.
+  destruct (H a Hh) as [Hb|Hr]; [exact Hb|]. exfalso. exact (registered_blocked t a Hr Hu).
+Qed.
+
+(* The same for every history in which no request reaches the expiry age (the clock may move): exactly
+   the histories outside the known finding strand.lazy-expiry. *)
+Theorem no_strand_without_expiry es so now0 : young_run [] so now0 es = true ->
+  let '(t, _, _, _, _) := tab_run [] so now0 es in
+  forall a, n_held (get t a) <> [] -> unblocked t a -> head_blocked_by_budget t a.
+Proof.
+  intros Hy. pose proof (tab_run_ns_young es [] so now0 Hy NS_nil (CT_nil now0)) as H.
   destruct (tab_run [] so now0 es) as [[[[t s] n] g] o]. intros a Hh Hu.
   destruct (H a Hh) as [Hb|Hr]; [exact Hb|]. exfalso. exact (registered_blocked t a Hr Hu).
 Qed.
